@@ -1,5 +1,6 @@
 import DmrVerif.Driver.Loop
+import DmrVerif.Driver.Storage
 
-/-! model driver for property C20 (stub: no operations registered yet) -/
+/-! model driver for property C20 (repeater storage) -/
 
-def main : IO Unit := Dmr.Driver.runMain []
+def main : IO Unit := Dmr.Driver.runMainS Dmr.Driver.Storage.storageStep Dmr.Storage.init
